@@ -307,7 +307,7 @@ func (w *Watcher) _fetchHeight(ctx context.Context, logger *zap.Logger, getCurre
 				return
 			}
 
-			previousHeight := w.currentHeight
+			previousHeight := atomic.LoadInt32(&w.currentHeight)
 			if *latestHeight != previousHeight {
 				logger.Info("block height changed", zap.Int32("prevHeight", previousHeight), zap.Int32("latestHeight", *latestHeight))
 				p2p.DefaultRegistry.SetNetworkStats(vaa.ChainIDAlephium, &gossipv1.Heartbeat_Network{
@@ -315,7 +315,7 @@ func (w *Watcher) _fetchHeight(ctx context.Context, logger *zap.Logger, getCurre
 					Height:          int64(*latestHeight),
 				})
 				currentAlphHeight.Set(float64(*latestHeight))
-				w.currentHeight = *latestHeight
+				atomic.StoreInt32(&w.currentHeight, *latestHeight)
 			}
 
 			// Always send the block height to avoid having enough block confirmations but not enough confirmation time
